@@ -49,21 +49,21 @@ conf() {
     C01) PKG=c01;;
     C02) PKG=c02;;
     C03) PKG=c03;;
-    C04) PKG=c04;;
+    C04) PKG=c04; JDISK=1;;
     C05) PKG=c05;;
-    C06) PKG=c06;;
+    C06) PKG=c06; JDISK=1;;
     C07) PKG=c07;;
     C08) PKG=c08;;
-    C09) PKG=c09;;
+    C09) PKG=c09; JDISK=1;;
     C10) PKG=c10;;
     C11) PKG=c11;;
     C12) PKG=c12; RACE=1; QLIM=1500;;
-    C13) PKG=c13;;
+    C13) PKG=c13; JDISK=1;;
     C14) PKG=c14;;
-    C15) PKG=c15;;
-    C16) PKG=c16;;
+    C15) PKG=c15; JDISK=1;;
+    C16) PKG=c16; JDISK=1;;
     C17) PKG=c17;;
-    C18) PKG=c18;;
+    C18) PKG=c18; JDISK=1;;
     C19) PKG=c19;;
     C20) PKG=c20; FUZZ="FuzzAlgebra"; FUZZTIME=180;;
     *) return 1;;
@@ -206,8 +206,12 @@ out["_violations"]=v.get("violations")
 json.dump(out,open(sys.argv[2],"w"),indent=1,default=str)
 PY
     else
-      # hard crash: use the on-disk journal if there is one
-      cat "$work"/out/journal-*.json > "$replay" 2>/dev/null || echo '{}' > "$replay"
+      # hard crash: use the on-disk journal of the crashed shard if there is one
+      local jf=""
+      for ((i=0; i<shards; i++)); do
+        [ "$(cat "$work/rc-$i")" != 0 ] && [ -s "$work/out/journal-$i.json" ] && { jf="$work/out/journal-$i.json"; break; }
+      done
+      if [ -n "$jf" ]; then cp "$jf" "$replay"; else echo '{}' > "$replay"; fi
     fi
     # rapid fail files and logs next to it
     find "$work" -name '*.fail' -exec cp {} "$rdir/" \; 2>/dev/null
